@@ -25,7 +25,7 @@ cp $OUT/demo.py /verif/seeded/$NAME/demo.py
 RES=""
 for C in $CHECKS; do
   cp evidence/$C.json /tmp/seedchk-$NAME.$C.evidence.bak 2>/dev/null
-  LOMOND_ROOT=$W timeout 1500 ./check $C > /tmp/seedchk-$NAME.$C.out 2>&1; E=$?
+  PYVC_EVIDENCE_DIR=/tmp/scratch-evidence-$$ LOMOND_ROOT=$W timeout 1500 ./check $C > /tmp/seedchk-$NAME.$C.out 2>&1; E=$?
   cp /tmp/seedchk-$NAME.$C.evidence.bak evidence/$C.json 2>/dev/null
   V=$(grep -c '^VIOLATION' /tmp/seedchk-$NAME.$C.out)
   NF=$(grep '^VIOLATION' /tmp/seedchk-$NAME.$C.out | grep -vc 'no-failing-input-found')
